@@ -93,7 +93,12 @@ class SidecarValidator:
                     refs_strings = {data.column_name: data.get_hed_strings() for data in sidecar}
                     if "HED" not in refs_strings:
                         refs_strings["HED"] = ["n/a"]
-                    for combination in itertools.product(*[refs_strings[key] for key in refs]):
+                    # A reference to something that is not an annotated column cannot be expanded (the reference
+                    # screening above only sees the type-checked strings), so report it instead of raising KeyError.
+                    unknown_refs = [ref for ref in refs if ref not in refs_strings]
+                    for ref in unknown_refs:
+                        issues += error_handler.format_error_with_context(ColumnErrors.INVALID_COLUMN_REF, ref)
+                    for combination in (() if unknown_refs else itertools.product(*[refs_strings[key] for key in refs])):
                         new_issues = []
                         ref_dict = dict(zip(refs, combination))
                         modified_string = hed_string
